@@ -213,11 +213,11 @@ Proof.
   apply bind_ok in H. destruct H as (f & Hf & H). injection H as <-.
   apply bind_ok in Hf. destruct Hf as (s & Hrun & Hf). injection Hf as <-.
   rewrite Ep in Hrun. cbn [Groups.run] in Hrun. apply bind_ok in Hrun. destruct Hrun as (s1 & Hs1 & Hrun).
-  destruct (first_step_leaf' t str seg (take 3) (seg_of_piece t lvl e leaf) s_name (group_admission t lvl) root
+  destruct (first_step_leaf' t str seg (take 3) (seg_of_piece t lvl e leaf) s_name (group_acceptance t lvl) root
               (strip (first_line text)) s1) as (a & r & Ef & Em & Hr); [|exact Hs1|].
   { rewrite Htake. unfold msh_top_ok in Htop. destruct (search t search_fuel (unbs "MSH") root) as [[[sr [|? ?]]|]|]; (exact I || discriminate). }
   assert (Hh : Proofs.RoundTripMsg.hd_leaf seg a r (g_forest s1)) by (exists []; exact Ef).
-  pose proof (Proofs.RoundTripMsg.run_hd t str seg (take 3) (seg_of_piece t lvl e leaf) s_name (group_admission t lvl)
+  pose proof (Proofs.RoundTripMsg.run_hd t str seg (take 3) (seg_of_piece t lvl e leaf) s_name (group_acceptance t lvl)
                 root a r ps s1 s Hh Hrun) as [rest Erest].
   destruct (seg_of_piece_msh t lvl e leaf Hsegs srows row1 row2 inf1 inf2 Hl Hn1 Hn2 Hr1 Hr2 text (msh2_text e) tail
               Estrip Htail Hns Hfs Hsp (msh2_text_length e) r a) as (N & V1 & V2); [|exact Em|].
